@@ -18,7 +18,8 @@ Inductive op :=
 | OpReset (epoch : N) (raw : list (N * N))
 | OpM (id : N)                           (* merged highest-before clock of a processed event *)
 | OpG (f : N)                            (* GetFrameRoots *)
-| OpQ (a b : N).                         (* ForklessCause(a, b) asked of the instance's index (both processed) *)
+| OpQ (a b : N)                          (* ForklessCause(a, b) asked of the instance's index (both processed) *)
+| OpV.                                   (* Store.GetValidators: the current validator set (ids and weights) *)
 
 Inductive obs :=
 | ObsSkip (why : N)                      (* 1 already processed, 2 other epoch, 3 parent not processed, 4 creator unknown *)
@@ -28,7 +29,8 @@ Inductive obs :=
 | ObsReset (ldf epoch : N)
 | ObsM (clock : list (bool * N))
 | ObsG (rs : list (N * N))
-| ObsQ (r : bool).
+| ObsQ (r : bool)
+| ObsV (v : vals).
 
 (* sealing policy as data: (epoch, decided frame, new validators as Builder.Set calls) *)
 Definition policy := list (N * N * list (N * N)).
@@ -101,6 +103,7 @@ Definition step (i : inst) (o : op) : obs * inst * bool :=
     then let '(r, st') := fc_cached fcc_cap st a b in
          (ObsQ r, {| i_st := st'; i_es := i_es i; i_proc := i_proc i |}, false)
     else (ObsSkip 3, i, false)
+  | OpV => (ObsV (l_vals st), i, false)
   end.
 
 Fixpoint run (i : inst) (ops : list op) : list obs :=
